@@ -507,16 +507,27 @@ Proof. vm_compute. repeat split; reflexivity. Qed.
 (* ------------------------------------------------------------------------------------------ *)
 (* Amended (dynamic) inputs with deferral (model/Engine.v, Section Amend)                      *)
 (* ------------------------------------------------------------------------------------------ *)
-From SV Require Import proofs.EngineAmendProofs.
+From SV Require Import proofs.EngineAmendProofs proofs.EngineAmendFull.
 
 (* The statement for this fragment: the ungated engine (remembered amended edges and the deferred
    flag do not block a rerun) on projects whose order is topological for amended edges too.
-   NOT proved: it needs "a build ends in a finished state from every state that builds reach";
-   proved is the other half, that a finished state is determined by the world. *)
+   Proved below (C01_amend_full_holds): a finished state is determined by the world
+   (proofs/EngineAmendProofs.v) and every build from every state that builds reach ends in a
+   finished state (proofs/EngineAmendFull.v). *)
 Definition C01_amend_full : Prop :=
   forall run amend proj, wf_a amend proj ->
     C01_full_for empty_asys (build_world_a run amend false proj)
                  (fun a b => same_result proj (abase a) (abase b)).
+
+(* For ALL programs [run], ALL amend behaviours (which further inputs a step asks for, as a
+   function of the contents of its declared inputs), ALL projects whose order is topological for
+   declared and amended inputs, ALL finite sequences of worlds (sources changed, deleted,
+   restored, scripts switched so that other inputs are amended, variables changed): building the
+   last world on top of what the earlier builds left -- recorded traces, remembered amended
+   edges, deferred steps -- has the step states and the output contents of building it on
+   nothing.  No hypothesis besides wf_a. *)
+Theorem C01_amend_full_holds : C01_amend_full.
+Proof. intros run amend proj H ws w. apply amend_equiv_scratch. exact H. Qed.
 
 Section Amended.
   Variable run : N -> list (option N) -> list (option N) -> N -> N.
@@ -532,6 +543,37 @@ Section Amended.
       wf_a amend proj -> Finished_a run amend proj y -> Finished_a run amend proj z ->
       same_world proj y z -> same_result proj y z.
   Proof. exact (finished_a_unique run amend). Qed.
+
+  (* The other half.  [InvA] (proofs/EngineAmendFull.v) = recorded traces valid for the step with
+     its REMEMBERED amended inputs, remembered amended inputs = what the step amends on the
+     recorded declared-input contents, K and closure over declared ++ remembered inputs,
+     remembered inputs come from earlier steps.  It holds in the empty state, survives the
+     startup rescan on any world and every build of the ungated engine, and a build from a state
+     that satisfies it ends in a finished state with sources and environment untouched. *)
+  Theorem C01_amended_build_ends_finished :
+    forall (proj : project) (y : asys),
+      wf_a amend proj -> InvA run amend proj y ->
+      InvA run amend proj (a_build run amend false proj y) /\
+      Finished_a run amend proj (abase (a_build run amend false proj y)) /\
+      same_world proj (abase y) (abase (a_build run amend false proj y)).
+  Proof. intros proj y H. exact (a_build_ok run amend proj H y). Qed.
+
+  Theorem C01_amended_rescan_keeps_invariant :
+    forall (proj : project) (y : asys) (w : world),
+      wf_a amend proj -> InvA run amend proj y -> InvA run amend proj (resync_a proj y w).
+  Proof. intros proj y w H HI. exact (proj1 (resync_a_inv run amend proj H y w HI)). Qed.
+
+  Theorem C01_amended_every_reached_state_finished :
+    forall (proj : project) (ws : list world) (w : world),
+      wf_a amend proj ->
+      Finished_a run amend proj
+        (abase (build_world_a run amend false proj w
+                  (fold_left (fun s x => build_world_a run amend false proj x s) ws empty_asys))).
+  Proof.
+    intros proj ws w H.
+    exact (proj1 (proj2 (build_world_a_inv run amend proj H w _
+                           (worlds_a_inv run amend proj H ws empty_asys (empty_InvA run amend proj))))).
+  Qed.
 End Amended.
 
 (* D28 at this level.  With the dispatch gating of the code (a remembered amended input that is an
@@ -561,3 +603,22 @@ Proof.
     try (vm_compute; reflexivity).
   all: change (2 =? 2) with true; cbn [andb]; destruct (5 =? c); vm_compute; reflexivity.
 Qed.
+
+(* The ungated engine on the D28 project through a deferral: with script version 5 step 2 amends the
+   output 10 of step 1.  World C has the script but not the source of step 1: step 2 runs, asks
+   for 10, which is not built: DEFERRED (its command ran, it stays PENDING).  World A brings the
+   source: step 1 runs, then step 2.  Back to C: step 1 cannot run, step 2 is rerun and deferred
+   again; the result is that of building C on nothing (an instance of C01_amend_full_holds). *)
+Definition w28c : world := (src_of [(2, 5)], fun _ => None).
+Example C01_amend_deferral_history :
+  let y1 := bw28 false w28c empty_asys in
+  let y2 := bw28 false w28a y1 in
+  let y3 := bw28 false w28c y2 in
+  a_build_log mix_run (amend_tab tab28) false p28 p28 (resync_a p28 empty_asys w28c) = [(2, true)] /\
+  map (stt (abase y1)) [1; 2] = [Pending; Pending] /\ adyn y1 2 = [10] /\ adef y1 2 = true /\
+  a_build_log mix_run (amend_tab tab28) false p28 p28 (resync_a p28 y1 w28a) = [(1, true); (2, true)] /\
+  map (stt (abase y2)) [1; 2] = [Succeeded; Succeeded] /\
+  a_build_log mix_run (amend_tab tab28) false p28 p28 (resync_a p28 y2 w28c) = [(2, true)] /\
+  map (stt (abase y3)) [1; 2] = [Pending; Pending] /\
+  same_result_b p28 (abase y3) (abase y1) = true.
+Proof. vm_compute. repeat split; reflexivity. Qed.
